@@ -118,6 +118,7 @@ inductive Diff where
   | setColumnHidden (sheet : Nat) (column : Int) (old new : Bool)
   | setRowHidden (sheet : Nat) (row : Int) (old new : Bool)
   | moveRows (sheet : Nat) (row : Int) (rowCount : Int) (delta : Int)
+  | moveColumns (sheet : Nat) (column : Int) (columnCount : Int) (delta : Int)
 
 /-- the modelled `pub fn`s of `UserModel` -/
 inductive Op where
@@ -138,6 +139,7 @@ inductive Op where
   | setColumnsHidden (sheet : Nat) (c1 c2 : Int) (hidden : Bool)
   | setRowsHidden (sheet : Nat) (r1 r2 : Int) (hidden : Bool)
   | moveRows (sheet : Nat) (row : Int) (rowCount : Int) (delta : Int)
+  | moveColumns (sheet : Nat) (column : Int) (columnCount : Int) (delta : Int)
   deriving Repr
 
 abbrev Out := OpOut Book Diff Err
@@ -369,11 +371,11 @@ def rowSrc (row delta x : Int) : Int :=
   else if delta < 0 ∧ row + delta < x ∧ x ≤ row then x - 1
   else x
 
-def moveRow1 (f : Int → RowView) (row delta : Int) : Int → RowView := fun x => f (rowSrc row delta x)
+def moveRow1 {α : Type} (f : Int → α) (row delta : Int) : Int → α := fun x => f (rowSrc row delta x)
 
 /-- the loop of `actions.rs::move_rows_action`: `n` rows starting at `row`, moved one by one —
     last row first when moving down (`.rev()`), first row first when moving up -/
-def moveRowsLoop (delta : Int) : Nat → Int → (Int → RowView) → (Int → RowView)
+def moveRowsLoop {α : Type} (delta : Int) : Nat → Int → (Int → α) → (Int → α)
   | 0, _, f => f
   | n + 1, row, f =>
     if 0 < delta then moveRowsLoop delta n row (moveRow1 f (row + n) delta)
@@ -398,6 +400,25 @@ def hiddenAdjust (s : Sheet) (step : Int) : Nat → Int → Int → Except Err I
     if !validRow r then .error .invalidRow
     else hiddenAdjust s step n (r + 1) (if (s.rowAt r).hidden then acc + step else acc)
 
+/-- models `actions.rs::move_columns_action` on the column attributes: the same permutation as for
+    rows, applied to the per-column view (`move_column_unchecked` copies width / hidden / style from
+    column to column with `set_column_width_and_style`) -/
+def mMoveColumns (b : Book) (sheet : Nat) (column count delta : Int) : Except Err Book :=
+  if count ≤ 0 ∨ delta = 0 then .ok b
+  else if !validCol (column + delta) || !validCol (column + count - 1 + delta) then .error .invalidColumn
+  else if !validCol column || !validCol (column + count - 1) then .error .invalidColumn
+  else
+    match getSheet b sheet with
+    | .error e => .error e
+    | .ok s => .ok (setSheet b sheet { s with colAt := moveRowsLoop delta count.toNat column s.colAt })
+
+/-- the scan of `common.rs::move_columns_action` that skips hidden columns in the landing zone -/
+def hiddenAdjustCols (s : Sheet) (step : Int) : Nat → Int → Int → Except Err Int
+  | 0, _, acc => .ok acc
+  | n + 1, c, acc =>
+    if !validCol c then .error .invalidColumn
+    else hiddenAdjustCols s step n (c + 1) (if (s.colAt c).hidden then acc + step else acc)
+
 /-! ### replay of one diff (`undo_redo.rs`) -/
 
 /-- models one arm of `apply_diff_list` -/
@@ -419,6 +440,7 @@ def fwd1 (env : Env) (b : Book) : Diff → Except Err Book
   | .setColumnHidden sheet c _ new => mSetColumnHidden b sheet c new
   | .setRowHidden sheet r _ new => mSetRowHidden b sheet r new
   | .moveRows sheet row count delta => mMoveRows b sheet row count delta
+  | .moveColumns sheet column count delta => mMoveColumns b sheet column count delta
 
 /-- models one arm of `apply_undo_diff_list` -/
 def back1 (env : Env) (b : Book) : Diff → Except Err Book
@@ -454,6 +476,7 @@ def back1 (env : Env) (b : Book) : Diff → Except Err Book
   | .setRowHidden sheet r old _ => mSetRowHidden b sheet r old
   -- `move_rows_action(sheet, row + delta, row_count, -delta)` at the Model level (no hidden-row scan)
   | .moveRows sheet row count delta => mMoveRows b sheet (row + delta) count (-delta)
+  | .moveColumns sheet column count delta => mMoveColumns b sheet (column + delta) count (-delta)
 
 /-- the loop of `apply_diff_list`: front to back, `?` stops at the first error -/
 def foldDiffs (f : Book → Diff → Except Err Book) : Book → List Diff → Applied Book
@@ -706,6 +729,24 @@ def moveRows (b : Book) (sheet : Nat) (row count delta : Int) : Out :=
         | .error e => fail b e
         | .ok b' => done b' [.moveRows sheet row count nd]
 
+def moveScanCols (s : Sheet) (column count delta : Int) : Except Err Int :=
+  if 0 < delta then hiddenAdjustCols s 1 (delta + 1).toNat (column + count) delta
+  else hiddenAdjustCols s (-1) (-delta).toNat (column + delta) delta
+
+/-- models `common.rs::move_columns_action` (twin of `moveRows`) -/
+def moveColumns (b : Book) (sheet : Nat) (column count delta : Int) : Out :=
+  if delta = 0 ∨ count ≤ 0 then ⟨b, none, none⟩
+  else
+    match getSheet b sheet with
+    | .error e => fail b e
+    | .ok s =>
+      match moveScanCols s column count delta with
+      | .error e => fail b e
+      | .ok nd =>
+        match mMoveColumns b sheet column count nd with
+        | .error e => fail b e
+        | .ok b' => done b' [.moveColumns sheet column count nd]
+
 def doOp (env : Env) (b : Book) : Op → Out
   | .setName n => setName b n
   | .setTimezone tz => setTimezone env b tz
@@ -724,6 +765,7 @@ def doOp (env : Env) (b : Book) : Op → Out
   | .setColumnsHidden s c1 c2 h => setColumnsHidden b s c1 c2 h
   | .setRowsHidden s r1 r2 h => setRowsHidden b s r1 r2 h
   | .moveRows s r n d => moveRows b s r n d
+  | .moveColumns s c n d => moveColumns b s c n d
 
 /-- the concrete system -/
 def sys (env : Env) : Sys Book Diff Op Err :=
